@@ -77,10 +77,10 @@ func init() {
 	})
 	add("(time.Duration).Seconds", func(ex *Exec, fr *frame, fn *ssa.Function, args []Value, pos tokenPos) Value {
 		if c, ok := asTerm(args[0]).constInt(); ok {
-			return FloatV{float64(c) / 1e9}
+			return FloatV{f: float64(c) / 1e9}
 		}
 		// symbolic durations are only ever rendered in log messages: an opaque NaN marks the value as unusable
-		return FloatV{math.NaN()}
+		return FloatV{f: math.NaN()}
 	})
 	add("time.Sleep", icZero)
 	add("time.After", func(ex *Exec, fr *frame, fn *ssa.Function, args []Value, pos tokenPos) Value {
